@@ -32,9 +32,64 @@ Three decidable predicates on values (all 20 kinds, every list length):
   executes such values on every run (`enc aspath:s2/4:1.2,a7`).
 -/
 import Rc.Lemmas.Attr
+import Rc.Gen.AttrFlags
 
 namespace Rc.Thm.C04
 open Rc Rc.AsPath Rc.Attr
+
+/-! ## the flags table: regenerated from the source, compared with the model and with the RFCs
+
+`Rc/Gen/AttrFlags.lean` is written by `tools/gen_codepoints.py --attr-flags` (pre step of this
+check) from the `path_attributes!( code => Name(Type), Flags::X, … )` invocation and the
+`impl Flags` constants of src/bgp/path_attributes.rs AS THEY ARE NOW. The three theorems below
+are therefore re-decided against the current source on every run: an edited flags entry, an
+added / removed row or a changed constant fails the proof step. -/
+
+/-- the attribute flags the defining documents give each type code of the table (RFC 4271 5.1:
+ORIGIN, AS_PATH, NEXT_HOP well-known mandatory, LOCAL_PREF, ATOMIC_AGGREGATE well-known
+discretionary = 0x40 (transitive bit set, optional bit clear); MULTI_EXIT_DISC optional
+non-transitive = 0x80, AGGREGATOR optional transitive = 0xC0; RFC 1997 COMMUNITIES, RFC 4360
+EXTENDED COMMUNITIES, RFC 6793 AS4_PATH / AS4_AGGREGATOR, RFC 6037 CONNECTOR,
+draft-ietf-idr-as-pathlimit AS_PATHLIMIT, RFC 5701 IPv6 EXTENDED COMMUNITIES, RFC 8092 LARGE
+COMMUNITIES, RFC 9234 OTC, RFC 6368 ATTR_SET optional transitive; RFC 4456 ORIGINATOR_ID,
+CLUSTER_LIST optional non-transitive). Typed here from the documents, not from routecore. -/
+def rfcFlags : List (Nat × Nat) :=
+  [(1, 0x40), (2, 0x40), (3, 0x40), (5, 0x40), (6, 0x40),
+   (4, 0x80), (9, 0x80), (10, 0x80),
+   (7, 0xC0), (8, 0xC0), (16, 0xC0), (17, 0xC0), (18, 0xC0), (20, 0xC0), (21, 0xC0), (25, 0xC0),
+   (32, 0xC0), (35, 0xC0), (128, 0xC0)]
+
+/-- **generated_flags_agree**: the model's canonical flags ARE the table of the source as it is
+now – for every type code an octet can hold (so also: exactly the source's rows are typed kinds),
+and for each of the 20 typed kinds of the model -/
+theorem generated_flags_agree :
+    (∀ c, c < 256 → canonicalFlags c = Rc.Gen.attrFlagsOf c) ∧
+    (∀ a : TypedAttr, Rc.Gen.attrFlagsOf a.code = some a.flags) := by
+  refine ⟨by decide +kernel, ?_⟩
+  intro a
+  cases a <;> simp only [TypedAttr.code, TypedAttr.flags] <;> decide
+
+/-- the source's table agrees with the documents: every row the RFCs define carries the flags they
+give it, the table holds no other row than those and the development code 255 (RFC 2042, no
+category defined; as coded: optional transitive), no code twice; the two MP attributes the typed
+table leaves out are optional non-transitive (RFC 4760); and the flag constants are the bit
+positions of RFC 4271 4.3 -/
+theorem generated_flags_rfc :
+    (∀ r ∈ rfcFlags, Rc.Gen.attrFlagsOf r.1 = some r.2) ∧
+    (∀ r ∈ Rc.Gen.attrFlags, r ∈ rfcFlags ∨ r = (255, 0xC0)) ∧
+    (Rc.Gen.attrFlags.map (·.1)).Nodup ∧
+    Rc.Gen.mpAttrFlags = [(14, 0x80), (15, 0x80)] ∧
+    Rc.Gen.flagWellknown = 0x40 ∧ Rc.Gen.flagOptNonTrans = 0x80 ∧ Rc.Gen.flagOptTrans = 0xC0 ∧
+    Rc.Gen.flagExtendedLen = 0x10 ∧ Rc.Gen.flagPartial = 0x20 := by
+  decide
+
+/-- what the two theorems give together: the canonical flags of the model are the RFCs' -/
+theorem canonical_flags_rfc : ∀ r ∈ rfcFlags, canonicalFlags r.1 = some r.2 := by
+  intro r hr
+  have h1 := generated_flags_rfc.1 r hr
+  have hlt : r.1 < 256 := by
+    revert r; decide
+  rw [generated_flags_agree.1 r.1 hlt]; exact h1
 
 /-! ## helper facts (private) -/
 
